@@ -288,4 +288,113 @@ theorem WF.contDel_link {g g' : Graph} (h : WF g) {p : Path} {cn : String} {c : 
                 rw [links_delLink_self, hent]
         · cases hres
 
+/-! ## a legal new name is accepted (blocks) -/
+
+theorem filter_ne_append_new {entries : List (String × Nat)} {name : String} {k : Nat}
+    (hnew : ∀ l ∈ entries, l.1 ≠ name) :
+    (entries ++ [(name, k)]).filter (fun l => l != (name, k)) = entries := by
+  rw [List.filter_append]
+  have h1 : entries.filter (fun l => l != (name, k)) = entries := by
+    apply List.filter_eq_self.mpr
+    intro l hl
+    have := hnew l hl
+    simp only [bne_iff_ne, ne_eq]
+    intro e; rw [e] at this; exact this rfl
+  rw [h1]; simp
+
+theorem WF.legal_name_accepted_block {g : Graph} (h : WF g) {name type : String} {c : Cont}
+    (hc : openCont g [] "data" = some c)
+    (hn : name ≠ "") (hs : hasSlash name = false) (ht : type ≠ "")
+    (hfresh : ∀ m, g.nextId ≤ m → name ≠ idStr m)
+    (hnew : ∀ l ∈ contEntries g c, l.1 ≠ name) :
+    ∃ g' k c', Store.createBlock g name type = .ok g' ∧ WF g' ∧ openCont g' [] "data" = some c' ∧
+      contEntries g' c' = contEntries g c ++ [(name, k)] ∧
+      g'.entityId k = some (g.freshId).2 ∧ (∀ k', g.entityId k' ≠ some (g.freshId).2) ∧
+      contGet g' c' (.str (g.freshId).2) = .ok (name, k) ∧
+      contHas g' c' (.str (g.freshId).2) = .ok true ∧
+      contHas g' c' (.ent k) = .ok true ∧
+      ((isUuid name = true → ∀ l ∈ contEntries g c, g.entityId l.2 ≠ some name) →
+         contGet g' c' (.str name) = .ok (name, k) ∧ contHas g' c' (.str name) = .ok true ∧
+         ∃ g'', Store.contDel g' c' (.str name) = .ok g'' ∧ cLinks g'' c'.node = contEntries g c) := by
+  obtain ⟨o, hr, _, _, _, _, hnode⟩ := openCont_some hc
+  have ho : o = rootLoc := by simpa [resolve] using hr.symm
+  subst ho
+  have hf := h.ensFacts "data" h.root
+  have w0 : WF (g.ensureGroup 0 "data").1 :=
+    h.ensureGroup "data" h.root h.not_cont_root (fun m _ => notId_of_head (by decide) m)
+  -- the entries of `blocks` before the call, seen in the graph with the group opened
+  have hold : cLinks (g.ensureGroup 0 "data").1 ((g.ensureGroup 0 "data").1.child? 0 "data") = contEntries g c := by
+    unfold contEntries
+    rw [hnode, hf.child]
+    show (g.ensureGroup 0 "data").1.links (g.ensureGroup 0 "data").2 = cLinks g (g.child? rootLoc.key "data")
+    cases hcc : g.child? 0 "data" with
+    | some c' =>
+      obtain ⟨e1, e2⟩ := hf.old c' hcc
+      rw [e1, e2]
+      show g.links c' = cLinks g (g.child? 0 "data")
+      rw [hcc]; rfl
+    | none =>
+      rw [(hf.new hcc).1]
+      show [] = cLinks g (g.child? 0 "data")
+      rw [hcc]; rfl
+  have hnodup : (g.ensureGroup 0 "data").1.hasChild (g.ensureGroup 0 "data").2 name = false := by
+    rw [hasChild_false_iff]
+    intro l hl
+    apply hnew l
+    rw [← hold, hf.child]; exact hl
+  cases hcb : Store.createBlock g name type with
+  | error e =>
+    exfalso
+    unfold Store.createBlock Store.entityCreateNew at hcb
+    have hn' : (name == "") = false := by simpa using hn
+    have ht' : (type == "") = false := by simpa using ht
+    simp [hn, ht, hs, hnodup, hn', ht', Except.map] at hcb
+  | ok g' =>
+    obtain ⟨k, nm, hnm, _, hne⟩ := h.createBlock_new hfresh hcb
+    have hnm' := hnm hn
+    subst hnm'
+    obtain ⟨cg, hcg, hlinks⟩ := hne.cont
+    rw [hold] at hlinks
+    let c' : Cont := { owner := rootLoc, ownerKind := "file", cname := "data",
+                       info := { flavour := .plain, item := "block" }, node := some cg, block := none }
+    have hc' : openCont g' [] "data" = some c' := by
+      simp [openCont, resolve, ownerKindOf, rootLoc, containerInfo, blockOfPath, hcg, c']
+    have hent' : contEntries g' c' = contEntries g c ++ [(nm, k)] := hlinks
+    have hpl' : isPlainLike c'.info.flavour = true := rfl
+    have hlen : contLen g' c' = contLen g c + 1 := by unfold contLen; rw [hent']; simp
+    have hj : contLen g c < contLen g' c' := by omega
+    have hlast : (contEntries g' c')[contLen g c]'hj = (nm, k) := by
+      simp [hent', contLen]
+    have hv := hne.wf.views_agree hc' hpl' (contLen g c) hj
+    rw [hlast] at hv
+    obtain ⟨_, _, ⟨i, hi, _, hgi, hhi⟩, hbyname, hent⟩ := hv
+    have hik : i = (g.freshId).2 := by
+      have := hne.eid; rw [hi] at this; exact Option.some.inj this
+    subst hik
+    have hfreshid : ∀ k', g.entityId k' ≠ some (g.freshId).2 := by
+      intro k' e
+      obtain ⟨n, hn1, hn2⟩ := h.ids_wf k' _ e
+      have := idStr_inj hn2; omega
+    refine ⟨g', k, c', rfl, hne.wf, hc', hent', hi, hfreshid, hgi, hhi, hent, ?_⟩
+    intro hclash
+    have hclash' : isUuid (nm, k).1 = true → ∀ l ∈ contEntries g' c', g'.entityId l.2 ≠ some (nm, k).1 := by
+      intro hu l hl
+      rw [hent'] at hl
+      rcases List.mem_append.mp hl with hl | hl
+      · have hlk : l.2 ∈ keys (g.ensureGroup 0 "data").1 := by
+          apply w0.target_exists (g.ensureGroup 0 "data").2 l
+          rw [← hold, hf.child] at hl; exact hl
+        rw [entityId_eq, hne.attrs_old _ hlk, hf.attrs]
+        exact hclash hu l hl
+      · simp only [List.mem_singleton] at hl
+        rw [hl, hi]
+        intro e
+        exact hfresh g.nextId (Nat.le_refl _) (Option.some.inj e).symm
+    obtain ⟨hgn, hhn⟩ := hbyname hclash'
+    refine ⟨hgn, hhn, ?_⟩
+    obtain ⟨g'', hdel, hl''⟩ := hne.wf.contDel_plain hc' rfl hgn
+    refine ⟨g'', hdel, ?_⟩
+    rw [hl'', hent']
+    exact filter_ne_append_new hnew
+
 end Nix.Store.Lemmas
